@@ -15,6 +15,7 @@ import (
 	"encoding/json"
 	"fmt"
 	"io"
+	"os"
 	"path/filepath"
 	"sort"
 	"time"
@@ -339,6 +340,45 @@ func verifHandle(req verifReq) (interface{}, error) {
 		return out, nil
 	}
 	switch req.Op {
+	case "lines":
+		// Classify the file the way readEvents sees it: bufio.ScanLines tokens, each blank / good / bad / huge.
+		data, err := os.ReadFile(verifPathOf(req))
+		if err != nil {
+			return nil, err
+		}
+		classes := []string{}
+		rest := data
+		for len(rest) > 0 {
+			var tok []byte
+			if i := bytes.IndexByte(rest, '\n'); i >= 0 {
+				tok, rest = rest[:i], rest[i+1:]
+			} else {
+				tok, rest = rest, nil
+			}
+			if len(tok) > 0 && tok[len(tok)-1] == '\r' {
+				tok = tok[:len(tok)-1]
+			}
+			trimmed := bytes.TrimSpace(tok)
+			var ev Event
+			switch {
+			case len(tok)+1 > maxEventLineBytes && len(tok) >= maxEventLineBytes:
+				classes = append(classes, "huge")
+			case len(trimmed) == 0:
+				classes = append(classes, "blank")
+			case json.Unmarshal(trimmed, &ev) == nil:
+				classes = append(classes, "good")
+			default:
+				classes = append(classes, "bad")
+			}
+		}
+		out := map[string]interface{}{"lines": classes, "ends_nl": len(data) > 0 && data[len(data)-1] == '\n'}
+		events, rerr := readEvents(verifPathOf(req))
+		if rerr != nil {
+			out["read_err"] = rerr.Error()
+		} else {
+			out["events"] = verifTypedEvents(events)
+		}
+		return out, nil
 	case "tree":
 		events, err := readEvents(verifPathOf(req))
 		if err != nil {
